@@ -949,3 +949,8 @@ CORPUS = [
 ]
 
 PROP = Prop()
+
+import parts  # noqa: E402
+import parts_misc  # noqa: E402
+
+parts.attach(PROP, parts_misc.MERMAIDDEF, parts_misc.WRITERS)   # default arguments of to_mermaid_flowchart; the file writers (models Forest/MiscMermaid.v, MiscWriters.v; theorems at the end of Properties/C17.v)
